@@ -500,3 +500,24 @@ SPECS = {
         },
     ],
 }
+
+
+# --- round 3d: C19, the line readers (harness/py2lean_c19.py: spec keys `translator` + `ext`).  `c19.regex`: the compiled
+# regex whose `finditer(<text>)` becomes the extra parameter of that name (list of group spans); `c19.text`: the
+# parameters that are texts; `poly_text`: a str is a list over a type variable (the code only slices / measures it).
+_C19 = [
+    {'module': 'boltons.strutils', 'qualname': 'iter_splitlines', 'lean_name': 'iter_splitlines',
+     'params': {'text': 'List α', 're_spans': 'List (Int × Int)'}, 'tparams': ['α'],
+     'kind': 'generator', 'result': 'List α', 'tie_theorem': 'C19.src_iter_splitlines_eq_model',
+     'translator': 'py2lean_c19', 'ext': 'py2lean_c19', 'gen_file': 'strutils_lines',
+     'c19': {'text': ['text'], 'regex': {'_line_ending_re': 're_spans'}, 'group': 0, 'poly_text': True}},
+    # `key` (a caller-supplied predicate) is the instance [PyRtC19.LineKey α]; `re_spans` is iter_splitlines' parameter
+    {'module': 'boltons.strutils', 'qualname': 'indent', 'lean_name': 'indent',
+     'params': {'text': 'List α', 'margin': 'List α', 'newline': 'List α', 're_spans': 'List (Int × Int)'},
+     'tparams': ['α'], 'classes': ['PyRtC19.LineKey α'],
+     'kind': 'function', 'result': 'List α', 'tie_theorem': 'C19.src_indent_eq_model',
+     'translator': 'py2lean_c19', 'ext': 'py2lean_c19', 'gen_file': 'strutils_lines',
+     'c19': {'text': ['text'], 'text_params': ['margin', 'newline'], 'poly_text': True, 'pred': {'key': 'line_key'},
+             'join': True}},
+]
+SPECS['C19'] = _C19
